@@ -61,6 +61,7 @@ type FuncSpec struct {
 	Logged     bool
 	NoFrame    bool
 	ErrProp    bool
+	Mutual     bool // decreases is a shared measure for a group of mutually recursive functions
 	Sig        string
 	HTMLLicensed bool
 	Tolerate   *Clause
@@ -333,6 +334,10 @@ func (sp *Specs) LoadSpecFile(path, pkgName string) {
 		case "sig":
 			if cur != nil {
 				cur.Sig = rest
+			}
+		case "mutual":
+			if cur != nil {
+				cur.Mutual = true
 			}
 		case "errprop":
 			if cur == nil {
